@@ -167,6 +167,19 @@ def _compute_variants(path, per_seed):
                 continue
             if data not in out:
                 out.append(data)
+        # every variable-length field (bytes, text, list, vector) of the message emptied, one at a time: the
+        # smallest form of the message a peer can send
+        for data in _emptied_fields(cls, raw):
+            if data not in out and data != raw:
+                out.append(data)
+        # inputs that embed one of the repo's test certificates: the same input with each of the other certificates
+        for data in _other_certificates(raw):
+            try:
+                cls.parse_exact_size(data)
+            except Exception:  # pylint: disable=broad-except
+                continue
+            if data not in out:
+                out.append(data)
         # text inputs carrying a date: the same input with the date expressed in another zone
         from simverif import wirefault
         for data in wirefault.date_zone_variants(raw):
@@ -176,6 +189,84 @@ def _compute_variants(path, per_seed):
                 continue
             if data not in out:
                 out.append(data)
+    return out
+
+
+_CERTIFICATES = None
+
+
+def test_certificates():
+    """DER of every certificate among the repo's own test data (test/common/certs/*.pem, *.crt)."""
+    global _CERTIFICATES  # pylint: disable=global-statement
+    if _CERTIFICATES is None:
+        import base64
+        import glob
+        import re
+        found = []
+        for name in sorted(glob.glob(os.path.join(core.REPO, 'test', 'common', 'certs', '*'))):
+            try:
+                with open(name, 'rb') as handle:
+                    blob = handle.read()
+            except OSError:
+                continue
+            for match in re.finditer(rb'-----BEGIN CERTIFICATE-----(.*?)-----END CERTIFICATE-----', blob, re.S):
+                try:
+                    der = base64.b64decode(match.group(1))
+                except ValueError:
+                    continue
+                if der[:1] == b'\x30' and der not in found:
+                    found.append(der)
+        _CERTIFICATES = found
+    return _CERTIFICATES
+
+
+def _other_certificates(raw):
+    out = []
+    for der in test_certificates():
+        at = raw.find(der)
+        if at < 0:
+            continue
+        for other in test_certificates():
+            if other == der:
+                continue
+            data = bytearray(raw[:at] + other + raw[at + len(der):])
+            delta = len(other) - len(der)
+            # every length field in front of the certificate that covers it is kept consistent
+            for size in (4, 3, 2):
+                for pos in range(0, at - size + 1):
+                    value = int.from_bytes(raw[pos:pos + size], 'big')
+                    if value >= len(der) and at + len(der) <= pos + size + value <= len(raw) and \
+                            0 <= value + delta < (1 << (8 * size)):
+                        data[pos:pos + size] = (value + delta).to_bytes(size, 'big')
+            out.append(bytes(data))
+        break
+    return out
+
+
+def _emptied_fields(cls, raw, limit=8):
+    import attr
+    out = []
+    try:
+        names = [f.name for f in attr.fields(type(cls.parse_immutable(raw)[0])) if not f.name.startswith('_')]
+    except Exception:  # not an attrs class  # pylint: disable=broad-except
+        return out
+    for name in names:
+        if len(out) >= limit:
+            break
+        try:
+            obj = cls.parse_immutable(raw)[0]
+            value = getattr(obj, name)
+            if isinstance(value, (bytes, bytearray, str)) and len(value):
+                setattr(obj, name, type(value)())
+            elif hasattr(value, '__delitem__') and hasattr(value, '__len__') and len(value):
+                del value[:]
+            else:
+                continue
+            data = bytes(obj.compose())
+            cls.parse_exact_size(data)
+        except Exception:  # the emptied message cannot be composed / is not accepted  # pylint: disable=broad-except
+            continue
+        out.append(data)
     return out
 
 
